@@ -569,6 +569,41 @@ func boundaryFamilies(quick bool, add addFn) {
 		}
 	}
 
+	// two leaves of one class carry the same value: an encoder that leaves a
+	// field out because it equals another field (committed == timestamp, a
+	// member ref equal to the id, uid equal to the changeset, ...) loses it.
+	for kind := 0; kind < xmlgen.NumKinds; kind++ {
+		kind := kind
+		probe := leavesOf(fullValue(kind))
+		var pairs [][2]int
+		for i := range probe {
+			for j := i + 1; j < len(probe); j++ {
+				if probe[i].class == probe[j].class && probe[i].v.Type() == probe[j].v.Type() {
+					pairs = append(pairs, [2]int{i, j})
+				}
+			}
+		}
+		if len(pairs) == 0 {
+			continue
+		}
+		add("equal-leaves-"+xmlgen.KindNames[kind], []int{len(pairs), 2, 2}, func(r *kit.Run, c Case, d []int) {
+			v := fullValue(kind)
+			ls := leavesOf(v)
+			a, b := ls[pairs[d[0]][0]], ls[pairs[d[0]][1]]
+			if d[1] == 0 {
+				b.v.Set(a.v)
+			} else {
+				a.v.Set(b.v)
+			}
+			c.Desc = fmt.Sprintf("%s: %s and %s hold one value (the %s one), placement %d", xmlgen.KindNames[kind], a.path, b.path, []string{"first", "second"}[d[1]], d[2])
+			if d[2] == 0 {
+				anyObject(r, c, v, false)
+			} else {
+				osmContainer(r, c, between(kind, v), false)
+			}
+		})
+	}
+
 	// every string of the object carries the class at once
 	add("text-all", []int{xmlgen.NumKinds - 1, xmlgen.NumTextClasses + len(textExtra), 2}, func(r *kit.Run, c Case, d []int) {
 		kind := xmlgen.KindNode + d[0]
